@@ -50,7 +50,7 @@ def corpus():
         # F6b (fixed): header without the RESULT token accepted
         ('default', up + [('b', READY), ('send',), ('b', b'GARBAGE2\nOK')]),
         ('default', up + [('b', READY), ('send',), ('b', b'RESULT2\nOK')]),
-        # zero-length result: handled only when more bytes arrive (F25, open)
+        # F25 (fixed): a zero-length result was acted on only when more bytes arrived
         ('default', up + [('b', READY), ('send',), ('b', b'RESULT 0\n')]),
         ('default', up + [('b', READY), ('send',), ('b', b'RESULT 0\n'), ('b', READY), ('send',)]),
         # F13 (fixed): full pipe at send time
@@ -297,7 +297,7 @@ class Run:
             p = w.proc(0, 0)
             d = w.stdout_disp(p)
             kind = 'automaton-mismatch'
-            # the one known deviation: a complete zero-length result is acted on only when more bytes arrive
+            # F25 recurrence: a complete zero-length result not acted on until more bytes arrive
             if ls == 'BUSY' and self.doc.outs and self.doc.outs[-1][0] == 'handled' and self.doc.outs[-1][1] == b'' and not self.doc.pending:
                 kind = 'zero-length-result-deferred'
             self.viol.append((kind, 'after %r the documented automaton is in %s, supervisord says %s' % (data[-40:], self.doc.state, ls)))
